@@ -19,6 +19,14 @@ type vfWrapErr struct{ inner error }
 func (e *vfWrapErr) Error() string { return "wrapped" }
 func (e *vfWrapErr) Unwrap() error { return e.inner }
 
+// a request context that is already over (the client went away, or a deadline passed)
+type vfDoneCtx struct {
+	context.Context
+	err error
+}
+
+func (c vfDoneCtx) Err() error { return c.err }
+
 // C16-O1: the forwarder's error handler maps every failure to exactly one gateway status.
 func VerifC16ErrorMap() {
 	kind := verifInt("kind")
@@ -52,7 +60,13 @@ func VerifC16ErrorMap() {
 	}
 	proxy := New(verifBool("passHost"))
 	rec := &verifRecorder{}
-	proxy.ErrorHandler(rec, &http.Request{Header: http.Header{}}, err)
+	req := &http.Request{Header: http.Header{}}
+	if verifBool("requestContextOver") {
+		// whatever became of the client, the failure is still answered (and seen by the
+		// middlewares that wrap the writer) with its one status
+		req = req.WithContext(vfDoneCtx{context.Background(), context.Canceled})
+	}
+	proxy.ErrorHandler(rec, req, err)
 	verifAssert("one-status", len(rec.Codes) == 1)
 	verifAssert("gateway-status", rec.code(0) == want)
 	verifAssert("one-body", len(rec.Bodies) == 1)
